@@ -193,6 +193,20 @@ def full_check(prop, tier, own, rule, explanation, extra=None):
     trs = [t for t in S.pmap(TB.run_tb, cfgs, procs=3) if "skipped" not in t]     # 3 workers: instances with different parameters follow each other in one process
     chk.validate("Trace_TreeBandit.tla", "Trace_TreeBandit.cfg", trs, "grid", own=own, nontrivial=nontrivial)
     chk.sample({"cfg": trs[0]["cfg"], "events": trs[0]["ev"][1:5]})
+    # composition: the base learners created by POO / GPO / PCT / VPCT are themselves T_HOO / HCT / VHCT machines;
+    # each learner's tree and evidence are recorded and validated like a stand-alone session
+    from .. import wraprec as W
+    from . import wrapcommon as WC
+    wc = (WC.gpo_cfgs(tier, 1250000)[: (4 if tier == "quick" else 30)] + WC.poo_cfgs(tier, 1260000)[: (4 if tier == "quick" else 30)])
+    lts = []
+    for w in S.pmap(W.run_wrap, [dict(c, compose=True, n=min(c["n"], 300), T=min(c["T"], 300)) for c in wc]):
+        if "machinery" in w:
+            raise C.Machinery(w["machinery"])
+        lts += w.get("learner_traces", [])
+    for j, lt in enumerate(lts):
+        lt["id"] = 1270000 + j
+    chk.validate("Trace_TreeBandit.tla", "Trace_TreeBandit.cfg", lts, "learners", own=own, chunk=80, nontrivial=lambda t: len(t["ev"]) > 10)
+    chk.notes["composed_learner_traces"] = len(lts)
     if extra:
         extra(chk)
     chk.assumptions = ["grid rewards (multiples of 1/RU) so that sums are exact; fixed point S = 2^9..2^13, Tol = 5 units for the index formula; decisions are checked exactly on the observed codes", "constant tables from harness/consts.py (published formulas, 60-digit decimals); delta~ < 1/2 so the two min() variants in the code coincide"]
